@@ -74,9 +74,20 @@ func (eng *Engine) verifyContract(ct *Contract) (res *FuncResult) {
 	}
 	o := vc.addObl("pre-sat", vc.rootKey, "pre-sat:"+vc.rootKey, "true", "true", fn.Pos())
 	o.ExpectSat = true
+	// logical variables: arbitrary values (what is proved for them holds for all)
+	var logicals []Val
+	for _, lg := range ct.Logicals {
+		t := eng.logicalType(ct, lg)
+		n := vc.fresh(vc.sorts().sortOf(t), "lg_"+lg[0])
+		vc.typingFacts(st, t, n)
+		logicals = append(logicals, Val{T: t, S: n})
+		vc.inputs = append(vc.inputs, InputVar{Name: lg[0], Term: n, T: t})
+	}
+	vc.rootLogicals = logicals
+	argsL := append(append([]Val{}, args...), logicals...)
 	var olds []Val
 	for _, ob := range ct.Olds {
-		olds = append(olds, vc.evalClauseVal(ob.Clause, args, st, nil))
+		olds = append(olds, vc.evalClauseVal(ob.Clause, argsL, st, nil))
 	}
 	vc.rootOlds = olds
 	switch {
@@ -149,7 +160,7 @@ func (eng *Engine) verifyContract(ct *Contract) (res *FuncResult) {
 				if r.cond == "false" {
 					continue
 				}
-				post := append(append(append([]Val{}, args...), r.vals...), olds...)
+				post := append(append(append([]Val{}, argsL...), r.vals...), olds...)
 				g := vc.evalClause(cl, post, r.st, nil)
 				parts = append(parts, sImp(r.cond, g))
 			}
@@ -219,4 +230,29 @@ func (eng *Engine) verifyLemma(ct *Contract, vc *VC, st *State) {
 		o.Clause = cl.Text
 		o.ClauseFn = cl.FnName
 	}
+}
+
+// logicalType: the Go type of a logical variable, read off the elaborated
+// clause functions (it is the parameter that follows the function's own).
+func (eng *Engine) logicalType(ct *Contract, lg [2]string) types.Type {
+	var fn *ssa.Function
+	for _, o := range ct.Olds {
+		if o.Clause.Fn != nil {
+			fn = o.Clause.Fn
+		}
+	}
+	for _, c := range ct.Ensures {
+		if c.Fn != nil {
+			fn = c.Fn
+		}
+	}
+	if fn == nil {
+		panic(unsupported("logical variable " + lg[0] + " is not used by any clause"))
+	}
+	for _, p := range fn.Params {
+		if p.Name() == lg[0] {
+			return p.Type()
+		}
+	}
+	panic(unsupported("logical variable " + lg[0] + " not found"))
 }
